@@ -135,32 +135,57 @@ Section FifoBridge.
     destruct (before i l); [|discriminate]. intros E; inversion E; eauto.
   Qed.
 
+  (* m_fifo_list.splice(end(), m_fifo_list, begin()): the head node becomes the last node.  Whatever way the source
+     then names that node (std::prev(end()), the begin() iterator captured before the splice, back()), it is this one *)
+  Lemma back_snoc (r : list nat) n : l_back (r ++ [n]) = Ok n.
+  Proof.
+    unfold l_back. destruct (r ++ [n]) as [|y t] eqn:E; [destruct r; discriminate|].
+    rewrite <- E. rewrite last_last. reflexivity.
+  Qed.
+  Lemma mem_snoc (r : list nat) n : mem_nat n (r ++ [n]) = true.
+  Proof. apply mem_nat_In. apply in_or_app. right. left. reflexivity. Qed.
+  Lemma splice_head_to_tail (l l' : list nat) :
+    l_splice l End (l_begin l) = Ok l' ->
+    exists n, l_begin l = It n /\ l_prev l' End = Ok (It n) /\ l_back l' = Ok n /\ l_deref l' (It n) = Ok n.
+  Proof.
+    destruct l as [|n r]; [simpl; discriminate|]. rewrite splice_begin_to_end. intros E. inversion E; subst l'.
+    exists n. repeat split.
+    - apply prev_end_snoc.
+    - apply back_snoc.
+    - unfold l_deref. rewrite mem_snoc. reflexivity.
+  Qed.
+
+  (* rewriting with what is known about the primitives met so far *)
+  Ltac hrew :=
+    repeat match goal with
+           | H : ?x = Ok _ |- context [?x] => rewrite H
+           | H : ?x = Some _ |- context [?x] => rewrite H
+           | H : ?x = None |- context [?x] => rewrite H
+           | H : ?x = It _ |- context [?x] => rewrite H
+           end.
+  (* reads and writes of the cell of node m (L : m < length of the cells), in whatever order the source makes them *)
+  Ltac vnorm L :=
+    repeat progress (cbn [bind iter_node mit_engage opt_has_value opt_value negb]; proj; hrew;
+                     rewrite ?nth_error_upd_same by exact L; rewrite ?vset_upd by exact L; rewrite ?vset_lt by exact L).
+
   (* do_insert(key, value): the source emplaces (no effect on a present key), the literal function
      appends; they agree when the key is absent, which is how do_insert_update calls it *)
   Lemma g_do_insert_ok (s : fifol K V) k v :
     assoc k (fl_index s) = None -> req (g_do_insert s k v) (fl_do_insert s k v).
   Proof.
-    intros A. unfold g_do_insert, fl_do_insert, cell_of.
-    apply req_bind; [apply req_refl|]. intros l El. proj.
-    destruct (l_prev l End) as [lastp|] eqn:P; [|simpl; auto]. cbn [bind].
-    destruct (l_prev_it _ _ _ P) as (m & ->). proj.
-    destruct (l_deref l (It m)) as [d|] eqn:D; [|simpl; auto]. cbn [bind].
-    assert (d = m) by (unfold l_deref in D; destruct (mem_nat m l); inversion D; auto). subst d.
-    unfold vget. destruct (nth_error (fl_cells s) m) as [e|] eqn:N; cbn [bind]; [|simpl; auto].
+    intros A. unfold g_do_insert, fl_do_insert, cell_of. cbv zeta.
+    destruct (l_splice (fl_list s) End (l_begin (fl_list s))) as [l|] eqn:Sp; [|simpl; auto]. cbn [bind]. proj.
+    destruct (splice_head_to_tail _ _ Sp) as (m & Hb & Hp & Hk & Hd).
+    unfold vget. hrew. cbn [bind]. proj. hrew. cbn [bind].
+    destruct (nth_error (fl_cells s) m) as [e|] eqn:N; cbn [bind]; [|simpl; auto].
     assert (L : m < List.length (fl_cells s)) by (apply nth_error_Some; congruence).
-    cbn [iter_node mit_engage].
-    destruct (fc_keyed e) as [k0|] eqn:Ek; cbn [opt_has_value opt_value bind negb]; proj; rewrite ?N; cbn [bind];
-      rewrite ?Ek; cbn [opt_has_value opt_value bind negb]; proj.
-    - destruct (index_erase (fl_index s) (Some k0)) as [ix|] eqn:Ex; cbn [bind]; [|simpl; auto]. proj.
-      rewrite N. cbn [bind]. rewrite vset_lt by auto. cbn [bind]. proj.
-      unfold umap_emplace. rewrite (index_erase_keeps_absent _ _ _ _ Ex A).
-      destruct (index_emplace (fl_cap s) ix k m) as [ix2|]; cbn [bind]; [|simpl; auto]. proj.
-      rewrite nth_error_upd_same by auto. cbn [bind]. rewrite vset_upd by auto. rewrite vset_lt by auto. cbn [bind].
+    unfold umap_emplace.
+    destruct (fc_keyed e) as [k0|] eqn:Ek; vnorm L.
+    - destruct (index_erase (fl_index s) (Some k0)) as [ix|] eqn:Ex; [|simpl; auto].
+      pose proof (index_erase_keeps_absent _ _ _ _ Ex A) as A'. vnorm L.
+      destruct (index_emplace (fl_cap s) ix k m) as [ix2|]; [|simpl; auto]. vnorm L.
       unfold set_fl_cells, set_fc_keyed, set_fc_val. simpl. steq.
-    - rewrite vset_lt by auto. cbn [bind]. proj.
-      unfold umap_emplace. rewrite A.
-      destruct (index_emplace (fl_cap s) (fl_index s) k m) as [ix2|]; cbn [bind]; [|simpl; auto]. proj.
-      rewrite nth_error_upd_same by auto. cbn [bind]. rewrite vset_upd by auto. rewrite vset_lt by auto. cbn [bind].
+    - destruct (index_emplace (fl_cap s) (fl_index s) k m) as [ix2|]; [|simpl; auto]. vnorm L.
       unfold set_fl_cells, set_fc_keyed, set_fc_val. simpl. steq.
   Qed.
 
